@@ -59,7 +59,7 @@ def check_property(pid, tier="quick", seed=0):
     mod = importlib.import_module(f"props.{pid}")
     units = mod.units(tier)
     results = runner.run_units(units, tier)
-    obs = [o for r in results for o in r["obligations"]]
+    obs = fold_covers([o for r in results for o in r["obligations"]])
     errors = [r for r in results if r["error"]]
     unsupported = [r for r in results if r["unsupported"]]
     nocanary = [r for r in results if r["kind"] == "func" and not r["error"] and not r["unsupported"] and not r["canary"]]
@@ -191,6 +191,25 @@ def check_property(pid, tier="quick", seed=0):
           f"unknown={len(unknown)} unsupported={len(unsupported)} errors={len(errors)} bounded_checks={len(bounded)} "
           f"wall={wall:.1f}s exit={status}")
     return status
+
+
+def fold_covers(obs):
+    """Reachability (cover) obligations are existential over paths: one per name, satisfied if
+    any path satisfies it."""
+    out, covers = [], {}
+    for o in obs:
+        if o["kind"] != "cover":
+            out.append(o)
+            continue
+        best = covers.get(o["name"])
+        rank = {"proved": 2, "unknown": 1, "refuted": 0}
+        if best is None or rank[o["verdict"]] > rank[best["verdict"]]:
+            covers[o["name"]] = o
+    for o in covers.values():
+        if o["verdict"] == "refuted":
+            o["note"] = "vacuity guard: no path reaches this point - the contract's hypotheses exclude it"
+        out.append(o)
+    return out
 
 
 def safe(s):
